@@ -26,6 +26,8 @@ DECIDED_R7 = ("Round 7: remove(hooks_only=True) leaves a route alone; route name
 DECIDED = DECIDED + ' ' + DECIDED_R7
 DECIDED_R8 = ('Round 8: the hook prefix is cut from the routed string; the routes index is filtered by the prefix the tree was cut at; the named route is the route _add returns.')
 DECIDED = DECIDED + ' ' + DECIDED_R8
+DECIDED_R9 = ('Round 9: whatever leaves the routes index has left the tree on every path; a DATA store in `_set` is followed by the PARAMS store on every path (d); the named route is the object the handlers were registered on (c).')
+DECIDED = DECIDED + ' ' + DECIDED_R9
 NOT_DECIDED = ('equality with a freshly built router over all edit histories (correctness of node splitting / merging beyond '
                'the pairing rules); prefix-wildcard removal of hooks (specified for routes only).')
 ASSUMPTIONS = ['list/dict operations behave as in CPython']
